@@ -2,6 +2,7 @@ import SC.Properties.C04
 import SC.Proofs.Utf8Thy
 import SC.Proofs.RIndex
 import SC.Proofs.RCountByte
+import SC.Proofs.RLastIndex
 /-!
 # C06 — total and memory-safe on arbitrary bytes
 
@@ -45,6 +46,13 @@ theorem indexRune_total (cfg : A.Cfg) (s : Bytes) (r : Int) : A.IndexRune cfg s 
 theorem count_cut_total (cfg : A.Cfg) (s sub : Bytes) :
     0 ≤ A.Count cfg s sub ∧ (A.Cut cfg s sub).isSome = true := by
   rw [A.Count_eq, A.Cut_eq]; exact ⟨Int.natCast_nonneg _, rfl⟩
+
+/-- `LastIndex` never panics or hangs and stays in range -/
+theorem lastIndex_total (cfg : A.Cfg) (s sub : Bytes) :
+    A.LastIndex cfg s sub ≠ A.fault ∧ A.LastIndex cfg s sub ≠ A.nofuel ∧ -1 ≤ A.LastIndex cfg s sub ∧ A.LastIndex cfg s sub ≤ s.length := by
+  rw [A.LastIndex_eq]
+  have := spec_lastIndex_in_range s sub
+  refine ⟨?_, ?_, this.1, this.2⟩ <;> simp only [A.fault, A.nofuel] <;> omega
 
 example : A.Count {} [0xFF, 0xFF] [0xFF, 0xFF] = 1 ∧ A.Count {pkg := .byt} [0xFF, 0xFF] [0xFF, 0xFF] = 1 := by decide +kernel
 end C06
